@@ -80,6 +80,7 @@ def parseEv (args : List String) : Option Ev :=
   | ["resume", i] => i.toNat?.map Ev.resume
   | ["acquire", k] => k.toNat?.map Ev.acquire
   | ["release", k] => k.toNat?.map Ev.release
+  | ["badrelease", k] => k.toNat?.map Ev.badRelease
   | ["sleep"] => some Ev.sleep
   | ["wait", e] => e.toNat?.map Ev.wait
   | ["finish"] => some Ev.finish
